@@ -250,6 +250,13 @@ def flush(ctx, cases, reqs, impls):
 def finding_still_fails(f):
     w = f["witness"]
     m = freephil.parse(input_string=w["master"])
+    if "chosen" in w:
+        try:
+            with contextlib.redirect_stdout(io.StringIO()):
+                r = m.command_line_argument_interpreter().process(arg=w["arg"])
+        except BaseException:
+            return False
+        return [d.path for d in r.all_definitions()] == [w["chosen"]]
     try:
         m.command_line_argument_interpreter().process(arg=w["arg"])
     except freephil.Sorry as e:
